@@ -249,6 +249,13 @@ def check_program_end(ctx, rule, cr):
     if not ctx.check(len(pushes) == 1 and len(lk) == 1, rule, "Program::link/appends-End", f.span,
                      "link() appends an End and then resolves the symbols"):
         return
+    rets = set(f.return_blocks())
+    ctx.check(not (f.reach_set(0, avoid={lk[0].bb}) & rets), rule,
+              "Program::link/always-resolves", lk[0].span,
+              "Link::link() runs on every call of Program::link",
+              "Program::link can return without calling Link::link: unresolved references and "
+              "WHILE/WEND records of the program stay queued and are resolved during the next "
+              "direct line's link, whose statement is then refused with the program's errors")
     ctx.check(f.can_reach(pushes[0].bb, lk[0].bb), rule, "Program::link/End-before-resolution",
               f.span, "the End is appended before symbols are resolved")
     hsa = [c for c in f.calls() if c.name == "mach::link::Link::has_symbol_at"
@@ -358,3 +365,16 @@ def check_all_statements_compiled(ctx, rule, cr):
               "kind): statements after it on the same line are never compiled, so a DATA after "
               "`GOTO n:` disappears and a WEND there leaves its WHILE unmatched - behaviour then "
               "depends on whether the statements share a line")
+
+
+def check_always_links(ctx, rule, cr):
+    f = cr.need_fn("mach::program::Program::link")
+    ctx.touch(f)
+    lk = f.calls_to("mach::link::Link::link")
+    ok = len(lk) == 1 and not (f.reach_set(0, avoid={lk[0].bb}) & set(f.return_blocks()))
+    ctx.check(ok, rule, "Program::link/always-resolves", f.span,
+              "the program's references are resolved (and their errors attributed) by the "
+              "program's own link, on every call",
+              "Program::link can skip Link::link: the program's UNDEFINED LINE / WHILE WITHOUT WEND "
+              "diagnostics surface while the next direct line is linked and are reported as that "
+              "line's errors")
